@@ -1034,4 +1034,24 @@ theorem fileFromBytes_insK_app {t t2 : Bytes} (ht : NL t) (ht2 : NL t2) {G : Eve
   simp [Event.toReal, hrfe, htl, hreal]
 
 
+/-- per section: header, entries and comments are unchanged by the newline event after a header -/
+theorem groupSections_pre_header_nl2 (hd : Header) (t : Bytes) (tl : List Event) : ∀ (pre : List Event),
+    (groupSections (pre ++ .header hd :: .newline t :: tl)).1 = (groupSections (pre ++ .header hd :: tl)).1 ∧
+    (groupSections (pre ++ .header hd :: .newline t :: tl)).2.map
+        (fun s => (s.header, bodyEntries s.header s.body none [], s.body.filter isComment)) =
+      (groupSections (pre ++ .header hd :: tl)).2.map
+        (fun s => (s.header, bodyEntries s.header s.body none [], s.body.filter isComment)) := by
+  intro pre
+  induction pre with
+  | nil => simp [groupSections, bodyEntries, isComment]
+  | cons e pre ih =>
+    obtain ⟨ih1, ih2⟩ := ih
+    cases e with
+    | header h0 =>
+      simp only [List.cons_append, groupSections, List.map_cons]
+      exact ⟨trivial, by rw [ih1, ih2]⟩
+    | _ =>
+      simp only [List.cons_append, groupSections]
+      exact ⟨by rw [ih1], ih2⟩
+
 end GixModel.C26
